@@ -7,10 +7,13 @@ package main
 
 import (
 	"fmt"
+	"io"
 	"math/rand"
 	"os"
+	"os/exec"
 	"sort"
 	"strings"
+	"sync"
 
 	"verifharness/internal/ev"
 )
@@ -101,5 +104,78 @@ func main() {
 		fmt.Fprintf(os.Stderr, "no monitor for %q\n", ctx.ID)
 		os.Exit(ev.ExitBroken)
 	}
+	if ctx.Child == nil && os.Getenv("VERIF_SUPERVISED") == "" {
+		os.Exit(supervise(ctx))
+	}
 	os.Exit(f(ctx))
+}
+
+// supervise runs the monitor in a child process. Monitors execute real vegeta
+// code in-process; a fatal runtime error there (concurrent map access, a panic
+// in a goroutine the monitor does not own, stack exhaustion) must end up as a
+// violation with its witness, not as a dead check.
+func supervise(ctx *Ctx) int {
+	cmd := exec.Command(os.Args[0], os.Args[1:]...)
+	cmd.Env = append(os.Environ(), "VERIF_SUPERVISED=1")
+	cmd.Stdout = os.Stdout
+	var tailBuf tailWriter
+	cmd.Stderr = io.MultiWriter(os.Stderr, &tailBuf)
+	err := cmd.Run()
+	code := 0
+	if err != nil {
+		code = -1
+		if ee, ok := err.(*exec.ExitError); ok {
+			code = ee.ExitCode()
+		}
+	}
+	switch code {
+	case ev.ExitOK, ev.ExitViolation, ev.ExitInconclusive, ev.ExitBroken:
+		return code
+	}
+	stderr := tailBuf.String()
+	kind := "exit"
+	switch {
+	case strings.Contains(stderr, "fatal error:"):
+		kind = "fatal"
+	case strings.Contains(stderr, "panic:"):
+		kind = "panic"
+	}
+	run := ev.NewRun(ctx.ID, ctx.Tier, "exploration", "the monitor process itself died while executing vegeta code; the witness is the tail of its stderr")
+	run.Eval(1)
+	run.Distinct("monitor-death-a")
+	run.Distinct("monitor-death-b")
+	run.Sample(map[string]any{"monitor_process_exit": code})
+	run.Violate(fmt.Sprintf("%s/monitor-process-death/%s", ctx.ID, kind),
+		fmt.Sprintf("the monitor process died (exit %d, %s) while running vegeta code: %s", code, kind, lastLines(stderr, 12)),
+		map[string]any{"exit": code, "stderr_tail": stderr})
+	return run.Finish()
+}
+
+type tailWriter struct {
+	mu  sync.Mutex
+	buf []byte
+}
+
+func (t *tailWriter) Write(p []byte) (int, error) {
+	t.mu.Lock()
+	defer t.mu.Unlock()
+	t.buf = append(t.buf, p...)
+	if len(t.buf) > 64<<10 {
+		t.buf = t.buf[len(t.buf)-(48<<10):]
+	}
+	return len(p), nil
+}
+
+func (t *tailWriter) String() string {
+	t.mu.Lock()
+	defer t.mu.Unlock()
+	return strings.ToValidUTF8(string(t.buf), "?")
+}
+
+func lastLines(s string, n int) string {
+	lines := strings.Split(strings.TrimSpace(s), "\n")
+	if len(lines) > n {
+		lines = lines[:n] // the head of a Go crash report names the error and the first stack
+	}
+	return strings.Join(lines, " | ")
 }
